@@ -88,9 +88,14 @@ package app
 // CheckTx must not write the consensus side's in-memory state.
 //@ func (*App).txChecker$1
 //@   nowrite app.context.deliver, app.context.check, app.context.chainstate, app.context.balances, app.context.govern, app.context.validators, app.context.feePool, app.context.proposalMaster, app.context.rewardMaster, app.context.stateDB, app.App.header     // C07.checktx-frame
-//@   nowrite identity.ValidatorStore.queue, identity.ValidatorStore.totalPower, identity.ValidatorStore.lastActive, identity.ValidatorStore.maliciousValidators, identity.ValidatorStore.byzantine, identity.ValidatorStore.lastHeight, identity.ValidatorStore.proposer, identity.ValidatorStore.pendingEvents, utils.PriorityQueue.items     // C07.checktx-frame
+//@   nowrite identity.ValidatorStore.queue, identity.ValidatorStore.totalPower, identity.ValidatorStore.lastActive, identity.ValidatorStore.maliciousValidators, identity.ValidatorStore.byzantine, identity.ValidatorStore.lastHeight, identity.ValidatorStore.proposer, identity.ValidatorStore.pendingEvents     // C07.checktx-frame
 //@   nowrite rewards.RewardCumulativeStore.calculator, rewards.RewardCalculator.cached, rewards.RewardStore.rewardOptions, rewards.RewardCumulativeStore.rewardOptions       // C07.checktx-frame
+// The EVM state adapter (one CommitStateDB object shared by both connections) keeps a cache of live account objects,
+// a journal and per-block bookkeeping in memory: a mempool check must not touch any of it (OLVM's Validate/ProcessCheck
+// read accounts through the account keeper, never through the StateDB).
 //@   nowrite vm.CommitStateDB.thash, vm.CommitStateDB.bhash, vm.CommitStateDB.logs, vm.CommitStateDB.logSize, vm.CommitStateDB.txCount, vm.CommitStateDB.preimages, vm.CommitStateDB.accessList, vm.CommitStateDB.nextRevisionID     // C07.checktx-frame-evm
+//@   nowrite vm.CommitStateDB.stateObjects, vm.CommitStateDB.addressToObjectIndex, vm.CommitStateDB.stateObjectsDirty, vm.CommitStateDB.journal, vm.CommitStateDB.validRevisions, vm.CommitStateDB.refund, vm.CommitStateDB.dbErr, vm.CommitStateDB.hashToPreimageIndex     // C07.checktx-frame-evm
+//@   nowrite vm.stateObject.account, vm.stateObject.code, vm.stateObject.originStorage, vm.stateObject.dirtyStorage, vm.stateObject.dirtyCode, vm.stateObject.suicided, vm.stateObject.deleted     // C07.checktx-frame-evm
 // The in-memory option caches of the stores: a PROPOSAL_FINALIZE transaction (any account may sign one) whose proposal
 // is a passed, completed configuration update runs the governance update functions in CheckTx; those call SetupOpt /
 // SetOptions on the shared store objects, so the node that checked it switches options before the others do.
